@@ -120,7 +120,7 @@ func body(r *ev.Run) {
 				PUnknown:     []float64{0.02, 0.1}[rng.Intn(2)],
 				PLate:        []float64{0, 0.1}[rng.Intn(2)],
 				PFork:        []float64{0.1, 0.4}[rng.Intn(2)],
-				Classes:      []string{"MHLC", "MHLZNTUXC", "RC", "MMHRC", "C"}[rng.Intn(5)],
+				Classes:      []string{"MHLC", "MHLZNTUXC", "RC", "MMHRC", "C", "W", "MWC"}[rng.Intn(7)],
 				FieldExtreme: true,
 			}
 			hist := gen.Random(rng, rig.Genesis(), o)
